@@ -52,7 +52,36 @@ def main():
         # checks
         env2 = dict(os.environ, VERIF_REPO=wt, VERIF_SCRATCH_EVIDENCE=wt + '-evidence')
         caught, silent, errors, reports = [], [], [], {}
-        for p in sorted(registry.PROPERTIES):
+        if os.environ.get('CONFIRM_INPROCESS'):
+            # one model build, every rule once: the verdict each property's check would give (controls are not evaluated)
+            from pathlib import Path
+            from sa.model import Repo
+            from sa.report import Ctx, split_known
+            ctx = Ctx(Repo(root=Path(wt)))
+            results = {}
+            for rule in sorted(registry.RULES):
+                try:
+                    results[rule] = registry.rule_fn(rule)(ctx)
+                except Exception as e:      # AnalysisError and crashes alike: the check would exit 2
+                    results[rule] = e
+            for p, spec in sorted(registry.PROPERTIES.items()):
+                fs, seen, err = [], set(), False
+                for rule in spec['rules']:
+                    r = results[rule]
+                    if isinstance(r, Exception):
+                        err = True
+                        continue
+                    for f in r.findings:
+                        if (f.props is not None and p not in f.props) or f.key in seen:
+                            continue
+                        seen.add(f.key)
+                        fs.append(f)
+                _known, new, _ = split_known(fs, p)
+                (caught if new else errors if err else silent).append(p)
+                if new:
+                    reports[p] = ['%s:%s: [%s] %s -- %s  {%s}' % (f.file, f.line, f.rule, f.where, f.message[:200], f.key.split(' :: ')[-1][:80]) for f in new][:4]
+        else:
+          for p in sorted(registry.PROPERTIES):
             rc, out = sh([os.path.join(VERIF, 'check'), p], VERIF, env2)
             (caught if rc == 1 else silent if rc == 0 else errors).append(p)
             if rc == 1:
